@@ -1,7 +1,7 @@
 (* Properties_C14.v — property C14: factored objects mean the same as their flat expansion.
    Only statements, each closed by [exact <lemma>] and followed by Print Assumptions. *)
 From Coq Require Import List Arith QArith Lia.
-From AIT Require Import C14.Model C14.Spec C14.Proofs C14.ProofsEnum C14.ModelAlg C14.SpecAlg C14.ProofsAlg C14.ModelDDN C14.SpecDDN C14.ProofsDDN C14.Model2D C14.Spec2D C14.Proofs2D.
+From AIT Require Import C14.Model C14.Spec C14.Proofs C14.ProofsEnum C14.ModelAlg C14.SpecAlg C14.ProofsAlg C14.ProofsCore C14.ModelDDN C14.SpecDDN C14.ProofsDDN C14.ProofsBP C14.Model2D C14.Spec2D C14.Proofs2D C14.ProofsIdx C14.ModelLearn C14.ProofsLearn.
 Import ListNotations.
 Local Close Scope Q_scope.
 
@@ -221,19 +221,19 @@ Proof. exact graph_push_wf. Qed.
 Print Assumptions ddn_push_keeps_layout.
 
 (* each joint next state gets the product of its local probabilities *)
-Theorem ddn_product : forall g T s a s1,
+Theorem ddn_product_general : forall g T s a s1,
   graph_wf g -> graph_complete g -> action_in_range g a ->
   getTransitionProbability g T s a s1 ==
   qprod (map (fun i => local_prob g T i s a (nth i s1 0%nat)) (seq 0 (length (gS g)))).
 Proof. exact ddn_product_lemma. Qed.
-Print Assumptions ddn_product.
+Print Assumptions ddn_product_general.
 
 (* ... which sum to one over all joint next states when the rows used are distributions *)
-Theorem ddn_sums_to_one : forall g T s a,
+Theorem ddn_sums_to_one_general : forall g T s a,
   graph_wf g -> graph_complete g -> action_in_range g a -> rows_stochastic g T s a ->
   qsum (map (getTransitionProbability g T s a) (all_assign (gS g))) == 1.
 Proof. exact ddn_sums_to_one_lemma. Qed.
-Print Assumptions ddn_sums_to_one.
+Print Assumptions ddn_sums_to_one_general.
 
 (* the joint next states summed over are exactly toFactors S 0, toFactors S 1, ... *)
 Theorem all_assignments_in_index_order : forall sizes, Forall (fun sp => (0 < sp)%nat) sizes ->
@@ -304,4 +304,198 @@ Proof.
   cbv zeta. split.
   { repeat constructor. }
   split; [repeat constructor|]. split; [repeat constructor|]. split; [vm_compute; reflexivity | reflexivity].
+Qed.
+
+(* ================================================================================================
+   Round 2: graphs built by push need no extra hypothesis; backProject; tag utilities
+   ================================================================================================ *)
+
+(* [graph_built g]: g was obtained from DDNGraph(S, A) by successful push calls.  push's validation
+   makes every in-range action select an existing parent set. *)
+Theorem push_validation_gives_action_in_range : forall g a,
+  graph_built g -> graph_complete g -> in_space (gA g) a -> action_in_range g a.
+Proof. exact built_action_in_range. Qed.
+Print Assumptions push_validation_gives_action_in_range.
+
+Theorem ddn_product : forall g T s a s1,
+  graph_built g -> graph_complete g -> in_space (gA g) a ->
+  getTransitionProbability g T s a s1 ==
+  qprod (map (fun i => local_prob g T i s a (nth i s1 0%nat)) (seq 0 (length (gS g)))).
+Proof. exact ddn_product_built_lemma. Qed.
+Print Assumptions ddn_product.
+
+Theorem ddn_sums_to_one : forall g T s a,
+  graph_built g -> graph_complete g -> in_space (gA g) a -> rows_stochastic g T s a ->
+  qsum (map (getTransitionProbability g T s a) (all_assign (gS g))) == 1.
+Proof. exact ddn_sums_to_one_built_lemma. Qed.
+Print Assumptions ddn_sums_to_one.
+
+(* back-projection of a basis function = its exact expected next-step value: the entry of the
+   result selected by (s, a) equals  sum over ALL joint next states s1 of P(s1 | s, a) * b(s1) *)
+Theorem backproject_is_expectation : forall g T rhs s a,
+  graph_built g -> graph_complete g ->
+  bf_wf (gS g) rhs -> strict (bfTag rhs) ->
+  in_space (gS g) s -> in_space (gA g) a ->
+  rows_stochastic g T s a ->
+  let bp := backProject g T rhs in
+  mat_get (bmVals bp) (toIndexPartial (bmTag bp) (gS g) s) (toIndexPartial (bmActionTag bp) (gA g) a)
+  == qsum (map (fun s1 => getTransitionProbability g T s a s1 * entry (gS g) rhs s1) (all_assign (gS g))).
+Proof. exact backproject_is_expectation_lemma. Qed.
+Print Assumptions backproject_is_expectation.
+
+Local Close Scope Q_scope.
+
+(* checkTag accepts exactly the non-empty, strictly increasing, in-range tags *)
+Theorem checkTag_ok_iff : forall space tag,
+  fst (checkTag space tag) = TENone <->
+  tag <> [] /\ strict tag /\ Forall (fun k => k < length space) tag.
+Proof. exact checkTag_ok_iff_lemma. Qed.
+Print Assumptions checkTag_ok_iff.
+
+(* removeFactor drops exactly the pair with key f (keys strictly increasing) *)
+Theorem removeFactor_spec : forall keys vals f, strict keys ->
+  combine (fst (removeFactor keys vals f)) (snd (removeFactor keys vals f)) = drop_key f (combine keys vals).
+Proof. exact removeFactor_spec_lemma. Qed.
+Print Assumptions removeFactor_spec.
+
+(* merge(PartialFactors, PartialFactors) and merge(keys, values, keys, values): keys = merge of the
+   keys (sorted union, merge_is_sorted_union), and each key carries rhs' value if rhs has it, else lhs' *)
+Theorem merge_values_spec : forall lk lv rk rv k,
+  strict lk -> strict rk -> length lv = length lk -> length rv = length rk ->
+  fst (merge_pf lk lv rk rv) = merge_keys lk rk /\
+  snd (merge_pf lk lv rk rv) = merge_vals lk lv rk rv /\
+  pf_lookup k (combine (fst (merge_pf lk lv rk rv)) (snd (merge_pf lk lv rk rv))) =
+  match pf_lookup k (combine rk rv) with Some v => Some v | None => pf_lookup k (combine lk lv) end.
+Proof. exact merge_pf_spec_lemma. Qed.
+Print Assumptions merge_values_spec.
+
+(* match(PartialFactors, PartialFactors) / match(keys, values, keys, values): true iff the two
+   partial assignments agree on every common key (code as of /repo commit ee4b2be) *)
+Theorem match_partial_spec : forall lk lv rk rv,
+  strict lk -> strict rk -> length lv = length lk -> length rv = length rk ->
+  match_pf lk lv rk rv = true <-> pf_agree (combine lk lv) (combine rk rv).
+Proof. exact match_pf_spec_lemma. Qed.
+Print Assumptions match_partial_spec.
+
+Theorem match_factors_partial_spec : forall lhs rk rv,
+  match_f_pf lhs rk rv = forallb (fun kv => nth (fst kv) lhs 0 =? snd kv) (combine rk rv).
+Proof. exact match_f_pf_spec_lemma. Qed.
+Print Assumptions match_factors_partial_spec.
+
+Theorem match_keys_spec : forall keys lhs rhs,
+  match_keys keys lhs rhs = forallb (fun k => nth k lhs 0 =? nth k rhs 0) keys.
+Proof. exact match_keys_spec_lemma. Qed.
+Print Assumptions match_keys_spec.
+
+Theorem match_pairs_spec : forall ms lhs rhs,
+  match_pairs ms lhs rhs = forallb (fun ab => nth (fst ab) lhs 0 =? nth (snd ab) rhs 0) ms.
+Proof. exact match_pairs_spec_lemma. Qed.
+Print Assumptions match_pairs_spec.
+
+(* toIndexPartial(ids, space, PartialFactors): on the restriction of a full assignment to a key list
+   containing ids (in order) it equals toIndexPartial(ids, space, Factors) and never runs off the end *)
+Theorem toIndexPartial_pf_spec : forall space x ids tag, subseq ids tag ->
+  toIndexPartialKPF ids space tag (sub tag x) = Some (toIndexPartial ids space x).
+Proof. intros. unfold toIndexPartialKPF. apply kpf_go_subseq. assumption. Qed.
+Print Assumptions toIndexPartial_pf_spec.
+
+(* toIndexPartialAndSkip: index with the factor toModify taken as 0, and that factor's multiplier *)
+Theorem toIndexPartialAndSkip_spec : forall ids space f t, NoDup ids ->
+  let r := toIndexPartialAndSkip ids space f t in
+  (In t ids -> fst r + snd r * nth t f 0 = toIndexPartial ids space f) /\
+  (~ In t ids -> fst r = toIndexPartial ids space f /\ snd r = 1).
+Proof. exact toIndexPartialAndSkip_spec_lemma. Qed.
+Print Assumptions toIndexPartialAndSkip_spec.
+
+Example ex_round2_nonvacuous :
+  strict [0;2] /\ strict [1;2] /\ match_pf [0;2] [1;0] [1;2] [5;0] = true /\
+  fst (checkTag [2;2;2] [0;2]) = TENone /\
+  toIndexPartialAndSkip [0;1;2] [2;3;2] [1;2;1] 1 = (7, 2) /\ NoDup [0;1;2] /\
+  (exists g2, graph_built g2 /\ graph_complete g2 /\ gS g2 = [2;2] /\ length (gParents g2) = 2).
+Proof.
+  split; [repeat constructor|]. split; [repeat constructor|]. split; [reflexivity|]. split; [reflexivity|].
+  split; [reflexivity|]. split; [repeat constructor; cbn; intuition discriminate|].
+  pose (g0 := graph_new [2;2] [2]).
+  pose (p1 := mkPS [0] [[0]; [0;1]]). pose (p2 := mkPS [0] [[1]; [1]]).
+  pose (g1 := match graph_push g0 p1 with PushOk g => g | _ => g0 end).
+  pose (g2 := match graph_push g1 p2 with PushOk g => g | _ => g0 end).
+  exists g2. split; [|repeat split].
+  apply (gb_push g1 p2 g2); [apply (gb_push g0 p1 g1); [apply gb_new | reflexivity] | reflexivity].
+Qed.
+
+(* ================================================================================================
+   Round 2 (continued): PartialIndexEnumerator, learners, FlattenedModel
+   ================================================================================================ *)
+
+(* PartialIndexEnumerator(F, factors, fixedFactor, val, missing = false): factors = pre ++ fixed :: post,
+   the keys of pre below fixedFactor.  It visits, in increasing order, exactly the indices i (in the
+   enumeration order of the factors) whose digit for fixedFactor is val. *)
+Theorem index_enumerator_spec : forall F pre fixed post val fuel,
+  Forall (fun k => k < fixed) pre -> Forall (fun k => 0 < nth k F 0) (pre ++ fixed :: post) -> val < nth fixed F 0 ->
+  factorSpacePartial (pre ++ fixed :: post) F < fuel ->
+  pie_visit fuel (pie_make F (pre ++ fixed :: post) fixed val false) =
+  Some (index_enum_spec F (pre ++ fixed :: post) (length pre) val).
+Proof. exact index_enumerator_present_lemma. Qed.
+Print Assumptions index_enumerator_spec.
+
+(* missing = true: the given factors are pre ++ post, the indices are those of pre ++ fixed :: post *)
+Theorem index_enumerator_missing_spec : forall F pre fixed post val fuel,
+  Forall (fun k => k < fixed) pre -> (match post with [] => True | k :: _ => fixed <= k end) ->
+  Forall (fun k => 0 < nth k F 0) (pre ++ fixed :: post) -> val < nth fixed F 0 ->
+  factorSpacePartial (pre ++ fixed :: post) F < fuel ->
+  pie_visit fuel (pie_make F (pre ++ post) fixed val true) =
+  Some (index_enum_spec F (pre ++ fixed :: post) (length pre) val).
+Proof. exact index_enumerator_missing_lemma. Qed.
+Print Assumptions index_enumerator_missing_spec.
+
+(* PartialIndexEnumerator(F, fixedFactor, val) *)
+Theorem index_enumerator_all_spec : forall F fixed val fuel,
+  Forall (fun sp => 0 < sp) F -> fixed < length F -> val < nth fixed F 0 -> factorSpace F < fuel ->
+  pie_visit fuel (pie_make_all F fixed val) =
+  Some (filter (fun i => nth fixed (toFactors F i) 0 =? val) (seq 0 (factorSpace F))).
+Proof. exact index_enumerator_all_lemma. Qed.
+Print Assumptions index_enumerator_all_spec.
+
+(* JointActionLearner: for every experience history its joint Q-function is the table flat QLearning
+   (ql_step = QLearning::stepUpdateQ, same text as C11's) computes on the history with each joint action replaced by toIndex(A, action) *)
+Theorem jal_eq_qlearning : forall hist st,
+  jalQ (fold_left jal_step hist st) =
+  fold_left (ql_step (jalAlpha st) (jalGamma st)) (map (flat_exp (jalA st)) hist) (jalQ st).
+Proof. exact jal_eq_qlearning_lemma. Qed.
+Print Assumptions jal_eq_qlearning.
+
+Local Open Scope Q_scope.
+(* CooperativeQLearning with one basis whose action tag spans all agents: for every history in which the
+   action returned by the greedy policy attains the row maximum (greedy_hist), the basis' table is the
+   flat QLearning table on (index of s, index of a, index of s1, summed reward) *)
+Theorem coop_single_eq_qlearning : forall SS AA alpha gamma tag hist tab,
+  (0 < length AA)%nat -> greedy_hist SS AA tag alpha gamma tab hist ->
+  coop_run SS AA alpha gamma [mkBm tag (seq 0 (length AA)) tab] hist =
+  [mkBm tag (seq 0 (length AA)) (fold_left (ql_step alpha gamma) (map (flat_cexp SS AA tag) hist) tab)].
+Proof. exact coop_single_history_lemma. Qed.
+Print Assumptions coop_single_eq_qlearning.
+Local Close Scope Q_scope.
+
+(* FlattenedModel::sampleR(a) pays what the factored bandit pays for toFactors(A, a), whatever the
+   reused helper_ buffer held (and leaves a buffer of the right length for the next call) *)
+Theorem flattened_model_eq_factored : forall A groups helper a,
+  length helper = length A ->
+  fst (flattened_reward A groups helper a) = fbandit_reward A groups (toFactors A a) /\
+  length (snd (flattened_reward A groups helper a)) = length A.
+Proof. exact flattened_model_eq_factored_lemma. Qed.
+Print Assumptions flattened_model_eq_factored.
+
+Example ex_round2b_nonvacuous :
+  pie_visit 20 (pie_make [2;3;2] [0;1;2] 1 2 false) = Some [4;5;10;11] /\
+  pie_visit 20 (pie_make [2;3;2] [0;2] 1 1 true) = Some [2;3;8;9] /\
+  pie_visit 20 (pie_make_all [2;3] 0 0) = Some [0;2;4] /\
+  Forall (fun k => k < 1) [0] /\ Forall (fun k => 0 < nth k [2;3;2] 0) ([0] ++ 1 :: [2]) /\
+  (let st := jal_new 2 [2;2] 0 (1#2)%Q (1#2)%Q in
+   jalQ (fold_left jal_step [(0, [1;0], 1, 2%Q); (1, [1;1], 0, 4%Q)] st) =
+   fold_left (ql_step (1#2) (1#2)) [(0, 1, 1, 2%Q); (1, 3, 0, 4%Q)] (jalQ st)) /\
+  greedy_hist [2] [2;2] [0] (1#2) (1#2) (qzero 2 4) [([0], [1;0], [1], [0;0], [1%Q; 2%Q])].
+Proof.
+  split; [reflexivity|]. split; [reflexivity|]. split; [reflexivity|].
+  split; [repeat constructor|]. split; [repeat constructor|]. split; [reflexivity|].
+  cbn [greedy_hist]. split; [reflexivity|]. split; [vm_compute; reflexivity | exact I].
 Qed.
